@@ -137,7 +137,7 @@ StepP(i, o, p1) ==
               ELSE IF i.a /\ i.v THEN Append(pkt, i.d)
               ELSE pkt
     /\ quiet' = IF i.a THEN 0 ELSE IF quiet < QuietSat THEN quiet + 1 ELSE quiet
-    /\ blind' = IF i.a /\ (i.rst \/ blind > 0) THEN Lat + 1
+    /\ blind' = IF i.a /\ (i.rst \/ (blind > 0 /\ act)) THEN Lat + 1     \* (a packet that starts later is judged normally)
                 ELSE IF blind > 0 THEN blind - 1 ELSE 0
     /\ pend' = IF i.rst \/ blind > 0 \/ o.ev # <<>> THEN NoEvent ELSE p1
     /\ age' = IF i.rst \/ blind > 0 \/ o.ev # <<>> \/ p1 = NoEvent THEN 0 ELSE Age1(i) + 1
